@@ -1,4 +1,7 @@
 import Req.Lemmas.Form
+import Req.Lemmas.MultipartItems
+import Req.Lemmas.Progress
+import Req.Client.Body
 /-!
 C17 — form data, multipart uploads and marshalled bodies arrive exactly as supplied;
 progress callbacks are truthful.
@@ -52,5 +55,144 @@ theorem form_roundtrip (m : Values) :
 
 example : (parseForm (encode [([98], [[1], [2]]), ([97, 38], [[61]]), ([], [[]])])).1
     = [([], []), ([97, 38], [61]), ([98], [1]), ([98], [2])] := by decide
+
+/-! ## Part 2: quoting of Content-Disposition parameters -/
+
+section Quoting
+open Req.Multipart
+
+/-- **quote_unquote** — for ALL byte strings `s`: a standard parser (`mime.consumeValue`) reads
+the repaired quoting of `s` back as `arrive s`: every byte a header value can carry exactly,
+the others (controls except TAB, DEL) percent-encoded. -/
+theorem quote_unquote (s rest : Bytes) :
+    consumeQuoted (quote s ++ 34 :: rest) = some (arrive s, rest) :=
+  cq_quote_all s rest
+
+/-- **quote_roundtrip** — `unquote (quote s) = s` for every `s` a header can carry at all
+(TAB, quotes, backslashes, non-ASCII and invalid UTF-8 included). -/
+theorem quote_roundtrip (s rest : Bytes) (h : ∀ c ∈ s, headerUnsafe c = false) :
+    consumeQuoted (quote s ++ 34 :: rest) = some (s, rest) := by
+  rw [cq_quote_all, arrive_safe s h]
+
+example : consumeQuoted (quote [97, 9, 34, 92, 200, 98] ++ [34]) = some ([97, 9, 34, 92, 200, 98], []) := by
+  decide
+
+/-- The repaired quoting never produces a byte that `net/textproto` refuses in a header value:
+no name, whatever its bytes, can break the part header or make the server reject the upload. -/
+theorem quote_header_valid (s : Bytes) : ∀ c ∈ quote s, validValueByte c = true :=
+  quote_valid s
+
+set_option maxRecDepth 100000 in
+private theorem goQuoteByte_printable : ∀ c : UInt8, 32 ≤ c ∧ c < 127 →
+    (c = 92 ∧ goQuoteByte c = some [92, 92]) ∨ (c = 34 ∧ goQuoteByte c = some [92, 34]) ∨
+    (goQuoteByte c = some [c] ∧ (c == 34) = false ∧ (c == 92) = false ∧ (c == 13) = false ∧ (c == 10) = false) := by
+  apply Req.Form.byte_forall
+  decide
+
+/-- What the UNPATCHED code does (Go's `%q`): the round trip holds for printable ASCII names… -/
+theorem goquote_roundtrip_partial (s rest : Bytes) (h : ∀ c ∈ s, 32 ≤ c ∧ c < 127) :
+    ∃ q, goQuoteAscii s = some q ∧ consumeQuoted (q ++ 34 :: rest) = some (s, rest) := by
+  induction s with
+  | nil => exact ⟨[], rfl, by simp [cq_quote]⟩
+  | cons c cs ih =>
+    obtain ⟨q, hq, hc⟩ := ih (fun x hx => h x (List.mem_cons_of_mem _ hx))
+    have hb := h c (by simp)
+    rcases goQuoteByte_printable c hb with ⟨rfl, hg⟩ | ⟨rfl, hg⟩ | ⟨hg, h34, h92, h13, h10⟩
+    · refine ⟨[92, 92] ++ q, by simp [goQuoteAscii, hg, hq], ?_⟩
+      rw [show ([92, 92] ++ q ++ 34 :: rest : Bytes) = 92 :: 92 :: (q ++ 34 :: rest) by simp,
+        cq_esc 92 _ (by decide), hc]
+      rfl
+    · refine ⟨[92, 34] ++ q, by simp [goQuoteAscii, hg, hq], ?_⟩
+      rw [show ([92, 34] ++ q ++ 34 :: rest : Bytes) = 92 :: 34 :: (q ++ 34 :: rest) by simp,
+        cq_esc 34 _ (by decide), hc]
+      rfl
+    · refine ⟨[c] ++ q, by simp [goQuoteAscii, hg, hq], ?_⟩
+      rw [show ([c] ++ q ++ 34 :: rest : Bytes) = c :: (q ++ 34 :: rest) by simp,
+        cq_lit c _ h34 h92 h13 h10, hc]
+      rfl
+
+/-- …and FAILS outside: the name `a<TAB>b` arrives as the five bytes `a\tb` (the defect of
+DESIGN section 5 row 19; replayed on the real code by the lanes `quote` and `cdheader`). -/
+theorem goquote_tab_counterexample :
+    (goQuoteAscii [97, 9, 98]).bind (fun q => consumeQuoted (q ++ [34]))
+      = some ([97, 92, 116, 98], []) := by decide
+
+end Quoting
+
+/-! ## Part 3: multipart bodies -/
+
+section Multipart
+open Req.Multipart
+
+private def partOf : Sum (Bytes × Bytes) File → Part × List (Bytes × Bytes)
+  | .inl kv => (fieldPart kv, fieldHeaders kv)
+  | .inr f => (filePart f, fileHeaders f)
+
+private def itemS : Sum (Bytes × Bytes) File → Item
+  | .inl kv => fieldItem kv
+  | .inr f => fileItem f
+
+/-- **multipart_roundtrip** — for every boundary without LF, all fields and all files that a
+multipart body can carry (`FieldOK`, `FileOK`: non-empty names, delimiter-free contents; file
+names may contain ANY bytes): the server reads back exactly the fields, then the files, in
+order — names as `arrive` (exact for every byte a header can carry), content types and file
+bytes exact. -/
+theorem multipart_roundtrip (b : Bytes) (fields : List (Bytes × Bytes)) (files : List File)
+    (hb : (10 : UInt8) ∉ b)
+    (hfields : ∀ kv ∈ fields, FieldOK b kv) (hfiles : ∀ f ∈ files, FileOK b f) :
+    serverForm b (write b fields files) = .ok (fields.map fieldItem ++ files.map fileItem) := by
+  let l : List (Sum (Bytes × Bytes) File) := fields.map .inl ++ files.map .inr
+  have hw : write b fields files = writeParts b ((l.map partOf).map (·.1)) := by
+    simp [write, l, List.map_append, List.map_map, Function.comp_def, partOf]
+  have hgood : ∀ q ∈ l.map partOf, GoodPart (delim b) q.1 q.2 := by
+    intro q hq
+    simp only [l, List.map_append, List.map_map, List.mem_append, List.mem_map, Function.comp] at hq
+    rcases hq with ⟨kv, hkv, rfl⟩ | ⟨f, hf, rfl⟩
+    · exact goodPart_field b kv (hfields kv hkv)
+    · exact goodPart_file b f (hfiles f hf)
+  have hitems : itemsOf ((l.map partOf).map fun q => ⟨q.2, q.1.content⟩) = .ok (l.map itemS) := by
+    rw [List.map_map]
+    apply itemsOf_map
+    intro x hx
+    simp only [l, List.mem_append, List.mem_map] at hx
+    rcases hx with ⟨kv, hkv, rfl⟩ | ⟨f, hf, rfl⟩
+    · have := hfields kv hkv
+      exact itemOf_field kv this.name_ne this.name_safe
+    · exact itemOf_file b f (hfiles f hf)
+  unfold serverForm
+  rw [hw, parseBody_write b _ hb hgood]
+  simp only [hitems]
+  simp [l, List.map_append, List.map_map, Function.comp_def, itemS]
+
+/-- The exact form: when the names are made of bytes a header can carry (everything except
+controls other than TAB, and DEL), the server holds exactly the supplied names. -/
+theorem multipart_roundtrip_exact (b : Bytes) (fields : List (Bytes × Bytes)) (files : List File)
+    (hb : (10 : UInt8) ∉ b)
+    (hfields : ∀ kv ∈ fields, FieldOK b kv) (hfiles : ∀ f ∈ files, FileOK b f)
+    (hsafe : ∀ f ∈ files, (∀ c ∈ f.param, headerUnsafe c = false) ∧ (∀ c ∈ f.filename, headerUnsafe c = false)) :
+    serverForm b (write b fields files) =
+      .ok (fields.map fieldItem ++ files.map fun f => .file f.param f.filename (seenCType f) f.content) := by
+  rw [multipart_roundtrip b fields files hb hfields hfiles]
+  congr 2
+  apply List.map_congr_left
+  intro f hf
+  simp [fileItem, arrive_safe _ (hsafe f hf).1, arrive_safe _ (hsafe f hf).2]
+
+/-- A boundary accepted by `Writer.SetBoundary` contains no LF. -/
+theorem validBoundary_no_lf (b : Bytes) (h : validBoundary b = true) : (10 : UInt8) ∉ b := by
+  intro hm
+  simp only [validBoundary, Bool.and_eq_true, List.all_eq_true] at h
+  have := h.1.2 10 hm
+  exact absurd this (by decide)
+
+/- Non-vacuity: a field, and a file whose name contains TAB, a quote, a backslash and a
+non-ASCII byte and whose content contains CRLF and dashes, under the boundary `B`. -/
+set_option maxRecDepth 100000 in
+example : (serverForm [66] (write [66] [([107], [118, 13, 10, 45, 45])]
+      [⟨[102], [97, 9, 34, 92, 200], [], [116, 47, 120], [13, 10, 45, 45, 65, 0]⟩])).toOption
+    = some [.field [107] [118, 13, 10, 45, 45],
+            .file [102] [97, 9, 34, 92, 200] [116, 47, 120] [13, 10, 45, 45, 65, 0]] := by decide
+
+end Multipart
 
 end Req.Props.C17
